@@ -27,12 +27,12 @@ Lemma link_delay_table :
   schedule = [1; 1 + 5; 1 + 5 + 60; 1 + 5 + 60 + 300; 1 + 5 + 60 + 300 + 3600].
 Proof. repeat split; reflexivity. Qed.
 
-Lemma link_expireDeviation : C06_Gen.expireDeviation = (1 # 20)%Q.
-Proof. reflexivity. Qed.
+Lemma link_expireDeviation : C06_Gen.expireDeviation = expire_deviation /\ expire_deviation = (1 # 20)%Q.
+Proof. split; reflexivity. Qed.
 
 (* every draw u in [0,1) gives a factor in [0.95, 1.05] *)
 Lemma link_factor u : (0 <= u)%Q -> (u <= 1)%Q -> draw_ok (factor C06_Gen.expireDeviation u).
-Proof. rewrite link_expireDeviation. apply factor_ok. Qed.
+Proof. destruct link_expireDeviation as [-> ->]. apply factor_ok. Qed.
 
 Lemma link_placeholder : C06_Gen.notFoundPlaceholder = "*"%string.
 Proof. reflexivity. Qed.
@@ -40,7 +40,13 @@ Proof. reflexivity. Qed.
 Lemma link_wheel_slots : C06_Gen.timingWheelSlots = 300.
 Proof. reflexivity. Qed.
 
-Lemma link_safe_gap : C06_Gen.cacheSafeGapBetweenIndexAndPrimary = 5 * sec.
+Lemma link_safe_gap : C06_Gen.cacheSafeGapBetweenIndexAndPrimary = safe_gap /\ safe_gap = 5 * sec.
+Proof. split; reflexivity. Qed.
+
+(* the draws Exec replays use the statement's deviation, which is the code's *)
+Lemma link_exec_fac m : fac m = factor C06_Gen.expireDeviation (m # 1024).
+Proof. reflexivity. Qed.
+Lemma link_exec_gap c : gap (cfg_of c) = C06_Gen.cacheSafeGapBetweenIndexAndPrimary.
 Proof. reflexivity. Qed.
 
 Lemma link_defaults : C06_Gen.defaultExpire = 7 * 24 * 3600 * sec /\ C06_Gen.defaultNotFoundExpire = 60 * sec /\
